@@ -180,6 +180,38 @@ def run(ctx):
                 lim5 = sorted(cal5 & {"max", "min", "clamp", "floor", "ceil", "round", "abs", "recip"})
                 ctx.require(not lim5, "R-C18-5", "norm|%s" % b5.short.split("::{closure")[0], "the vector is divided by sqrt(sum of squares)", "the divisor of the normalisation passes through %s: a vector whose norm lies on the other side of that bound is returned un-normalised (norm != 1), and the convergence test then compares un-normalised vectors" % lim5, loc_str(st5.span))
     ctx.floor("R-C18-5", "normalising_divisions", n5, 1)
+    # ... and the norm is replaced by a constant ONLY when it is zero: a constant definition of an f64 variable that is
+    # compared with 0 sits on the `== 0` outcome of that comparison
+    from props.c01 import controlling_atoms as _ca5
+
+    f5r = flows.of(ec5)
+    for l5 in ec5.locals:
+        if l5["ty"] != "f64" or not l5["name"] or l5["i"] <= ec5.arg_count:
+            continue
+        defs5 = ec5.assigns_to(l5["i"])
+        if len(defs5) < 2 or not any(n_[0] == "CALL" and ec5.blocks[n_[1]].term.callee and ec5.blocks[n_[1]].term.callee.short.endswith("f64::sqrt") for n_ in f5r.slice_local([L(l5["i"])], data_only=True)):
+            continue
+        cdefs5 = []
+        for (bb5, d5) in defs5:
+            rv5 = getattr(d5, "rv", None)
+            if rv5 is None or rv5.k != "use" or not rv5.ops:
+                continue
+            if rv5.ops[0].is_const():
+                cdefs5.append((bb5, d5))
+            elif rv5.ops[0].place is not None and not rv5.ops[0].place.proj and ec5.local_name(rv5.ops[0].place.local) is None:
+                # `norm = match .. { true => 1.0, false => norm }`: the arms assign a temporary
+                for (bb6, d6) in ec5.assigns_to(rv5.ops[0].place.local):
+                    rv6 = getattr(d6, "rv", None)
+                    if rv6 is not None and rv6.k == "use" and rv6.ops and rv6.ops[0].is_const():
+                        cdefs5.append((bb6, d6))
+        for (bb5, d5) in cdefs5:
+            zero_arm = None
+            for (te5, v5, a5) in _ca5(f5r, bb5):
+                if isinstance(te5, tuple) and te5[0] == "binop" and te5[1] in ("Eq", "Ne") and desc_mentions(te5, lambda x: x[0] == "place" and x[1] == l5["name"]) and desc_mentions(te5, lambda x: x[0] == "const" and x[1].replace("const ", "").startswith("0")):
+                    zero_arm = (te5[1] == "Eq") == bool(v5)
+            if zero_arm is not None:
+                ctx.require(zero_arm, "R-C18-5", "zero-norm-only|%s" % l5["name"], "`%s` is replaced by a constant only when it is zero" % l5["name"],
+                            "`%s` is replaced by a constant on the outcome on which it is NOT zero: every non-zero vector is divided by that constant instead of by its norm, so the result is not normalised" % l5["name"], loc_str(d5.span))
     # R-C18-6: what is returned is the vector that was just normalised -- not the copy of the previous iterate the
     # convergence test compares it with (that one is un-normalised on the first pass: 1/n per node, norm 1/sqrt(n))
     ctx.rule("R-C18-6", "the Ok payload is the map the normalising division writes into, not a copy taken before the iteration step")
